@@ -74,6 +74,11 @@ class CubicBezier(ArcLengthMixin, Segment):
         bestDist = float("inf")
         bestT = -1
         samples = self.regularSampleTValue(50)
+        # The arc-length table behind regularSampleTValue advances t by 1/length,
+        # so a curve only a few units long yields a handful of distinct values,
+        # and the refinement below moves by at most 0.02: add a uniform grid so
+        # that the search always starts close enough.
+        samples = sorted(set(samples).union(i / 64.0 for i in range(65)))
         for t in samples:
             dist = self.pointAtTime(t).distanceFrom(p)
             if dist < bestDist:
